@@ -78,7 +78,7 @@ CLAIMED = {
              "during the real builds are validated against it (DisjointSetTrace, B2); nested opacity groups in every closing position.",
         note="Trusted: TLC; lxml; the OT-SVG oracle (SVG 1.1 subset: g, path, use, defs, basic shapes, fill inheritance, opacity, gradients), "
              "itself compared with resvg on the documents of real builds at the start of every run.",
-        technique="TLA+ model of the document assembly protocol checked by TLC; spec-to-code replay with structural projection and an independent OT-SVG renderer",
+        technique="TLA+ model of the document assembly protocol checked by TLC; spec-to-code replay with structural projection and an independent OT-SVG renderer; code-to-spec trace validation of the grouping (DisjointSetTrace.tla)",
         design_ref="DESIGN.md §4.3, §5 C02",
     ),
     "C03": dict(
@@ -96,7 +96,7 @@ CLAIMED = {
              "fonts (Compile.tla scenarios and random scenarios x steps {default,1,7,50} x metrics x user transforms, content outside the viewBox) are "
              "read back: ClipList against bounds recomputed independently from the compiled outlines through the paint graph and against the source shapes.  QuantizeProof.tla: TLAPS proof (re-checked by tlapm in every run) that the quantisation step is outward, lands on multiples and wastes less than one step for every integer edge and every step.",
         note="Trusted: TLC; fontTools; the oracle's outline flattening (under-estimates a curved edge by < 0.1 unit).",
-        technique="TLA+ transcription of the clip-box computation checked by TLC, replayed state by state; independent recomputation on real fonts",
+        technique="TLA+ transcription of the clip-box computation checked by TLC, replayed state by state; independent recomputation on real fonts; TLAPS proof of the quantisation step for every edge and step",
         design_ref="DESIGN.md §4.2, §5 C05",
     ),
     "C06": dict(
@@ -118,7 +118,7 @@ CLAIMED = {
              "static font, a variable font and two configs, with a generated negative configuration, and bound to -j1 / -j16 builds.  Parts.tla "
              "(ReusableParts: the parts side files, outside the property) is model-checked and replayed; drift is a note, never a violation.",
         note="Trusted: TLC, ninja, strace; SOURCE_DATE_EPOCH fixed.  Schedules are exhaustive on the model, sampled on the real CLI.",
-        technique="TLA+ model of ninja scheduling on graphs extracted from the code, checked by TLC; differential real builds",
+        technique="TLA+ models of ninja scheduling and of response files under parallel execution on graphs extracted from the code, checked by TLC (with a TLAPS proof for arbitrary graphs); differential real builds",
         design_ref="DESIGN.md §4.1, §5 C08",
     ),
     "C19": dict(
@@ -151,7 +151,7 @@ CLAIMED = {
              "realised by a concrete sequence and replayed, and fonts are built from long sequences of every class.",
         note="Trusted: TLC; fontTools cmap/GSUB decompilation; the shaper (longest-match ligature application as in OpenType).  One naming collision "
              "(hex-like letters vs g_ prefix) is a recorded known finding.",
-        technique="TLA+ model of glyph-set construction and shaping checked by TLC; spec-to-code replay judged by an independent shaper on the binary",
+        technique="TLA+ models of glyph-set construction, shaping and long-name hashing checked by TLC (long names also by a TLAPS proof for any length); spec-to-code replay judged by an independent shaper on the binary",
         design_ref="DESIGN.md §5 C04",
     ),
     "C07": dict(
@@ -171,7 +171,7 @@ CLAIMED = {
              "and through a real build directory (<output>.toml / .glyphmap).  The driver is re-run on a used build directory with other flags and the worker's Font.toml compared field by field; hostile characters are also tried as the first character of a CSV field, and CsvRow.tla (writer / reader over character sequences, RoundTrip, the pre-fix writer as negative configuration) is replayed row by row into csv_line / load_from.",
         note="Trusted: TLC; feaLib's lexer as the judge of legal glyph names.  A 64/65-character naming defect was repaired with a fix: commit; the g_-prefix "
              "collision is a recorded known finding.",
-        technique="TLA+ model of the driver->file->worker channel checked by TLC; vectors replayed through the real writer/loader pairs",
+        technique="TLA+ models of the driver->file->worker channel and of the CSV writer/reader checked by TLC; vectors and rows replayed through the real writer/loader pairs",
         design_ref="DESIGN.md §5 C10",
     ),
     "C11": dict(
